@@ -236,7 +236,13 @@ Inductive sfun : Type :=
 | SF_Y3 (n : vec) (i j l : nat)
 | SF_f3 (n : vec) (i j l : nat)
 | SF_f4 (n : vec) (i j l m : nat)
-| SF_relatedness (n : vec) (centre : bool) (i j : nat).
+| SF_relatedness (n : vec) (centre : bool) (i j : nat)
+(* weights-based statistics (trees.c 3764-4023, 4605-4641); the state carries the extra
+   last column the C code appends (proportion / count of samples below) *)
+| SF_trait_cov (ns : Q) (j : nat)                      (* x_j^2 / (2 (n-1)^2), centred weights *)
+| SF_trait_corr (ns var : Q) (j last : nat)            (* x_j^2/var / (2 c (1-c/n) (n-1)), 0<c<n *)
+| SF_trait_lm (ns tot : Q) (j last : nat)              (* ((x_j - c tot/n)/(c - c^2/n))^2 / 2   *)
+| SF_grw (centre : bool) (wi wj : Q) (i j last : nat). (* (x_i - w_i p)(x_j - w_j p) | x_i x_j  *)
 
 Definition sf_eval (s : sfun) (x : vec) : Q :=
   match s with
@@ -271,6 +277,17 @@ Definition sf_eval (s : sfun) (x : vec) : Q :=
       let p := map (fun ab => fst ab / snd ab) (combine x n) in
       let mbar := if centre then qsum p / inject_Z (Z.of_nat (length n)) else 0 in
       (qn p i - mbar) * (qn p j - mbar)
+  | SF_trait_cov ns j => qn x j * qn x j / (2 * (ns - 1) * (ns - 1))
+  | SF_trait_corr ns var j last =>
+      let c := qn x last in
+      if Qltb 0 c && Qltb c ns then qn x j * qn x j / var / (2 * c * (1 - c / ns) * (ns - 1)) else 0
+  | SF_trait_lm ns tot j last =>
+      let c := qn x last in
+      if Qltb 0 c && Qltb c ns then
+        let b := (qn x j - c * tot / ns) / (c - c * c / ns) in b * b / 2
+      else 0
+  | SF_grw centre wi wj i j last =>
+      if centre then (qn x i - wi * qn x last) * (qn x j - wj * qn x last) else qn x i * qn x j
   end.
 
 (* ---------- helpers for the per-run correspondence ---------- *)
@@ -280,6 +297,22 @@ Fixpoint qlist_eqb (a b : list Q) : bool :=
   | x :: a', y :: b' => Qeq_bool x y && qlist_eqb a' b'
   | _, _ => false
   end.
+(* Fst = 1 - 2 (d(X) + d(Y)) / (d(X) + 2 d(X,Y) + d(Y)) from three windowed specification
+   values (python/tskit/trees.py Fst); windows with a zero denominator are skipped (nan) *)
+Fixpoint fst_check (dx dy dxy : list Q) (expected : list (option Q)) : bool :=
+  match dx, dy, dxy, expected with
+  | [], [], [], [] => true
+  | a :: dx', b :: dy', c :: dxy', e :: ex' =>
+      (match e with
+       | Some v => Qeq_bool (a + b + 2 * c) 0        (* 0/0: undefined, anything goes *)
+                   || Qeq_bool (1 - 2 * (a + b) / (a + b + 2 * c)) v
+       | None => true
+       end) && fst_check dx' dy' dxy' ex'
+  | _, _, _, _ => false
+  end.
+Definition win_values (stat : Q -> Q -> Q) (norm : bool) (ws : list Q) : list Q :=
+  if norm then windowed_norm stat ws else windowed stat ws.
+
 Definition check_windows (stat : Q -> Q -> Q) (norm : bool) (ws expected : list Q) : bool :=
   qlist_eqb (if norm then windowed_norm stat ws else windowed stat ws) expected.
 (* node mode: expected is window-major, node-minor *)
